@@ -11,6 +11,7 @@ import (
 
 	"github.com/saucelabs/forwarder"
 	"github.com/saucelabs/forwarder/verifharness/lib"
+	"github.com/saucelabs/forwarder/verifharness/wiring"
 )
 
 const originHost = "origin-a.test"
@@ -132,6 +133,7 @@ func main() {
 	run.Floor("refused_with_own_element", 200)
 	run.Floor("forwarded_chains", 200)
 	run.Floor("real_loops_terminated", 8)
+	wiring.Run(run, "C18")
 	run.Finish()
 }
 
